@@ -119,7 +119,7 @@ func (r *Report) Violation(classKey string, replay map[string]any, noInput bool)
 		r.Violations = append(r.Violations, path)
 	}
 	r.mu.Unlock()
-	if dup || n >= 20 {
+	if dup || n >= 5 {
 		return
 	}
 	_ = os.WriteFile(path, b, 0o644)
